@@ -33,7 +33,9 @@ NAMES = ["My Spa", "a|b", "|", "caf\xe9 b\xf6b's", "x", "", "Spa||2|", "\xff\xfe
          # names whose first / last character is whitespace to str.strip (incl. latin-1 NBSP, NEL, FS..US)
          " padded ", "nbsp\xa0", "\x85nel", "tab\t", "\x1cfs us\x1f", " Hot|Tub|2 ",
          # names made of / ending in the characters of the framing tags themselves
-         "POOL", "HELLO", "CASA DEL SOL", "Spa <3>", "a/", "<HELLO>", "O"]
+         "POOL", "HELLO", "CASA DEL SOL", "Spa <3>", "a/", "<HELLO>", "O",
+         # names that CONTAIN the prefixes by which an app's own hello is recognised (IOS..., AND...)
+         "GRAND ISLAND SPA", "PATIOS", "ANDROMEDA", "IOS"]
 
 
 class Responder:
@@ -339,7 +341,8 @@ def run(ctx):
     tokens = ["s1", "s2", "s3", "s4", "s5", "s6"]
     for i in range(n_sc):
         k = rng.choice([0, 1, 1, 2, 3, 6]) if i % 10 else 2
-        responders = [(tokens[j], rng.choice(NAMES), plans(rng)) for j in range(k)]
+        # (every name of the list is some scenario's first responder: no name is left to chance)
+        responders = [(tokens[j], NAMES[i % len(NAMES)] if j == 0 else rng.choice(NAMES), plans(rng)) for j in range(k)]
         flt = rng.choice(["none", "none", "addr", "absent"] + ([responders[rng.randrange(k)][0]] * 2 if k else []))
         if flt == "addr" and not k:
             flt = "none"
